@@ -407,7 +407,14 @@ pub fn triage(property: &str, batch: &BatchOut, classes: &[ClassSpec], env: &Env
         let sc = classes[s.class_idx].scenario;
         let plan = s.plan.clone().expect("violating run keeps its plan");
         let want = (v.property.clone(), vkey(&v));
+        // shrinking is bounded in executions (300) and in wall clock (90 s per violation class: runs with multi-megabyte
+        // payloads take seconds each); when the time is up every further candidate counts as "does not fail" and the
+        // smallest failing plan found so far is reported
+        let shrink_started = std::time::Instant::now();
         let mut fails = |p: &Plan| -> bool {
+            if shrink_started.elapsed().as_secs() > 90 {
+                return false;
+            }
             // a shrunken plan may be one no generator would produce: a harness panic on it just means "not this one"
             let Ok(rec) = std::panic::catch_unwind(std::panic::AssertUnwindSafe(|| execute(sc, p, env))) else { return false };
             rec.violations.iter().any(|x| x.property == want.0 && vkey(x) == want.1 && known_match(known, x).is_none())
